@@ -12,6 +12,18 @@ func init() {
 	vRegister("ZZ_C04_Sync", ZZ_C04_Sync)
 	vRegister("ZZ_C05_Sync", ZZ_C05_Sync)
 	vRegister("ZZ_C0405_Par", ZZ_C0405_Par)
+	vRegister("ZZ_C05_Pending", ZZ_C05_Pending)
+}
+
+// ZZ_C05_Pending: sequential, deferred (asynchronous) executor, no expiry: several writes are recorded before
+// maintenance runs; then the executor queue and CleanUp run and the quiescent audit is taken.
+func ZZ_C05_Pending() {
+	s := zzRunSym("c05p", zzCfgFromParams())
+	s.env.ex.Run()
+	s.env.c.CleanUp()
+	s.env.ex.Run()
+	s.syncEvents("c05p.drain")
+	zzQuiescentAudit(s.env.c, "c05p", false, true)
 }
 
 // zzQuiescentAudit checks C04 (prefix c04) or C05 (prefix c05) on a quiescent cache.
